@@ -1,3 +1,6 @@
+\* Trace validation of hidc.lexer.lex against the Lexer machine (C12).  Every input ends in a verdict:
+\* with deadlock checking on, a completed run has judged all of them.
+\* (hv/checks/c12.py copies this next to a generated LexerData.tla and a root module EXTENDS LexerTrace.)
 INIT TInit
 NEXT TNext
 INVARIANT VerdictWhenDone
